@@ -2,6 +2,168 @@
 from vlib import common, viewops, viewextra
 
 
+import itertools
+import os
+import random
+
+from vlib import irval
+from vlib.poly import Poly as P, POS, NONNEG
+
+# Owning arrays re-declare a few view operations for rvalues (element-moving views / iterators) and per value category (begin / end).  Each must
+# designate the same elements, with the same shape, as the operation inherited from the view class, which the O01 obligations decide.
+OWNING_FORMS = [
+    ("std::move(a)()", "std::move(a)()", "a()", 1),
+    ("std::move(a).taked(n)", "std::move(a).taked(n)", "a.taked(n)", 1),
+    ("std::move(a).dropped(n)", "std::move(a).dropped(n)", "a.dropped(n)", 1),
+    ("std::move(a)[n]", "std::move(a)[n]", "a[n]", 1),
+    ("*(a.begin() + n)", "*(a.begin() + n)", "*(a().begin() + n)", 1),
+    ("*(std::as_const(a).begin() + n)", "*(std::as_const(a).begin() + n)", "*(a().begin() + n)", 1),
+    ("*(std::move(a).begin() + n)", "*(std::move(a).begin() + n)", "*(a().begin() + n)", 1),
+    ("*(a.end() - n)", "*(a.end() - n)", "*(a().end() - n)", 1),
+    ("*(std::move(a).end() - n)", "*(std::move(a).end() - n)", "*(a().end() - n)", 1),
+    # taked / dropped of a const D > 1 array do not compile on the pinned tree (observed, DESIGN 10.3): the const forms exist for D = 1 only
+    ("std::as_const(a).taked(n)", "std::as_const(a).taked(n)", "a.taked(n)", -1),
+    ("std::as_const(a).dropped(n)", "std::as_const(a).dropped(n)", "a.dropped(n)", -1),
+]
+
+
+def owning_forms(rep, wd, maxd):
+    """The array object is passed by reference; its fields are read through loads.  Which address holds which field is read off the compiled program
+    itself (a probe function per D stores stride / offset / nelems of every dimension and the base pointer), and the loads are then given the values of
+    a canonical owning array: sizes z_k >= 1, index bases f_k, strides S_k = prod_{j>k} z_j, offsets f_k S_k, nelems z_k S_k."""
+    lines = [viewops.PRELUDE, "#include <utility>"]
+    fns = []
+    for D in range(1, maxd + 1):
+        lines.append('extern "C" void owprobe_%d(multi::array<double, %d>& a, long* out) { out[0] = reinterpret_cast<long>(a.base()); %s }'
+                     % (D, D, " ".join("{ auto const& l = subk<%d>(a.layout()); out[%d] = l.stride(); out[%d] = l.offset(); out[%d] = l.nelems(); }"
+                                       % (k, 4 + 6 * k + 3, 4 + 6 * k + 4, 4 + 6 * k + 5) for k in range(D))
+                        + " { auto const& l0 = subk<%d>(a.layout()); out[1] = l0.offset(); out[2] = l0.nelems(); }" % D))
+        for k, (name, rv, lv, mind) in enumerate(OWNING_FORMS):
+            if D < mind or (mind < 0 and D > -mind):
+                continue
+            for side, expr in (("f", rv), ("r", lv)):
+                lines.append('extern "C" void ow%s_%d_%d(multi::array<double, %d>& a, long n, long i0, long i1, long i2, long i3, long i4, long* out) '
+                             '{ observe(%s, a.base(), out, i0, i1, i2, i3, i4); }' % (side, k, D, D, expr))
+            fns.append((k, D, name))
+    src = os.path.join(wd, "owning_forms.cpp")
+    with open(src, "w") as fh:
+        fh.write("\n".join(lines) + "\n")
+    try:
+        text = irval.emit_ir(src, src[:-4] + ".ll", defines=("-DNDEBUG", "-fno-vectorize", "-fno-slp-vectorize"))
+    except common.AnalysisBroken as e:
+        rep.break_("O01.owning: the owning-array forms do not compile: %s" % str(e)[:300])
+        return 0
+    funcs, structs = irval.parse_module(text)
+    ev = irval.Evaluator(funcs, structs)
+    rep.units.add("owning_forms.cpp")
+    A = viewops.A
+    fieldmap = {}
+    for D in range(1, maxd + 1):
+        ev.symbolic_loads = True
+        try:
+            ev.run("owprobe_%d" % D, [A("a"), A("out")], {})
+        except (irval.Inconclusive, irval.AssertFires) as e:
+            rep.break_("O01.owning: the field probe for D=%d is not evaluated: %s" % (D, e))
+            return 0
+        st = dict(ev.stores)
+        fm = {}
+        ok = st.get(0) is not None and len(st[0].symbols()) == 1
+        if ok:
+            fm[list(st[0].symbols())[0]] = ("base",)
+        for k in range(D):
+            for j, what in ((3, "stride"), (4, "offset"), (5, "nelems")):
+                v = st.get(8 * (4 + 6 * k + j))
+                if v is None or len(v.symbols()) != 1 or not list(v.symbols())[0].startswith("mem["):
+                    ok = False
+                else:
+                    fm[list(v.symbols())[0]] = (what, k)
+        for slot, what in ((1, "offset0d"), (2, "nelems0d")):      # the innermost (0-dimensional) layout: offset 0, one element
+            v = st.get(8 * slot)
+            if v is None or len(v.symbols()) != 1 or not list(v.symbols())[0].startswith("mem["):
+                ok = False
+            else:
+                fm[list(v.symbols())[0]] = (what,)
+        if not ok or len(fm) != 3 * D + 3:
+            rep.break_("O01.owning: the fields of array<double, %d> are not single loads in the probe (%d of %d identified)" % (D, len(fm), 3 * D + 3))
+            return 0
+        fieldmap[D] = fm
+
+    def loader(D, vals):
+        """vals: dict z0.., f0.. (Poly); returns the load callback of a canonical array with these sizes / bases"""
+        def S(k):
+            r = P.const(1)
+            for j in range(k + 1, D):
+                r = r * vals["z%d" % j]
+            return r
+
+        def load(p_):
+            key = irval.atom("mem", p_ - vals["a"] + A("a"))      # the probe identified the fields by their offset from the object's address
+            names = list(key.symbols())
+            what = fieldmap[D].get(names[0]) if len(names) == 1 else None
+            if what is None:
+                raise irval.Inconclusive("load of a field of the array object that the probe did not identify: %r" % p_)
+            if what[0] == "base":
+                return vals["base"]
+            if what[0] == "offset0d":
+                return P.const(0)
+            if what[0] == "nelems0d":
+                return P.const(1)
+            k = what[1]
+            return {"stride": S(k), "offset": vals["f%d" % k] * S(k), "nelems": vals["z%d" % k] * S(k)}[what[0]]
+        return load
+    n = 0
+    for k, D, name in fns:
+        key = "O01.owning(%s,D=%d)" % (name, D)
+        n += 1
+        # symbolic class: n inside the leading extension (z0 = n + 1 + t), every other size >= 1, arbitrary index bases
+        vals = {"a": A("a"), "base": A("base"), "z0": A("n") + 1 + A("t")}
+        signs = {"n": NONNEG, "t": NONNEG, "base": POS}
+        for d in range(D):
+            vals["f%d" % d] = A("f%d" % d)
+            if d:
+                vals["z%d" % d] = 1 + A("y%d" % d)
+                signs["y%d" % d] = NONNEG
+        args = [A(x) for x in ("a", "n", "i0", "i1", "i2", "i3", "i4", "out")]
+        try:
+            ev.symbolic_loads = loader(D, vals)
+            ev.run("owr_%d_%d" % (k, D), args, signs)
+            want = dict(ev.stores)
+            ev.run("owf_%d_%d" % (k, D), args, signs)
+            got = dict(ev.stores)
+        except (irval.Inconclusive, irval.AssertFires) as e:
+            # the library branches on a relation the symbolic class does not fix: the two forms are compared on concrete canonical arrays instead
+            got, want, decided = {}, {}, 0
+            rnd = random.Random(common.seed_from_env() * 1000 + n)
+            for _ in range(60):
+                cv = {"a": P.const(4096), "base": P.const(1 << 20)}
+                for d in range(D):
+                    cv["z%d" % d] = P.const(rnd.randint(1, 4))
+                    cv["f%d" % d] = P.const(rnd.randint(-2, 3))
+                ev.symbolic_loads = loader(D, cv)
+                cargs = [P.const(4096), P.const(rnd.randint(0, int(cv["z0"].const_value())))] + [P.const(rnd.randint(0, 3)) for _i in range(5)] + [A("out")]
+                try:
+                    ev.run("owr_%d_%d" % (k, D), cargs, {})
+                    w_ = dict(ev.stores)
+                    ev.run("owf_%d_%d" % (k, D), cargs, {})
+                    g_ = dict(ev.stores)
+                except (irval.Inconclusive, irval.AssertFires, ZeroDivisionError):
+                    continue
+                decided += 1
+                got, want = g_, w_
+                if g_ != w_:
+                    break
+            if not decided:
+                rep.inconclusive(key, "O01.owning", str(e))
+                continue
+        bad = ["out[%d]: %r, the inherited operation gives %r" % (o // 8, got.get(o), want.get(o)) for o in sorted(set(got) | set(want)) if got.get(o) != want.get(o)]
+        if bad or not want:
+            rep.violated(key, "O01.owning", "%s of an owning array (D=%d) does not designate the elements / shape of %s: %s"
+                         % (name, D, OWNING_FORMS[k][2], "; ".join(bad[:3])[:400] or "nothing observed"), dict(problems=bad[:8]))
+        else:
+            rep.ok(key, "O01.owning", None)
+    return n
+
+
 def run(tier):
     rep = common.Report("C01", tier, "proof",
                         "one obligation per (operation, source dimensionality, observable[, case]); each is an identity between the closed form "
@@ -24,6 +186,8 @@ def run(tier):
         viewextra.add_empty_results(cr, D, True, "O01")
     cr.compile(nshards=8)
     cr.check()
+    nown = owning_forms(rep, wd, 3 if tier == "thorough" else 2)
+    rep.need_instances("O01.owning forms compared", nown, 20)
     rep.need_instances("O01 obligations generated", len(rep.obligations), 1400 if tier == "quick" else 2400)
     rep.trusted = ["clang 14 IR generation and -O2 pipeline (used as normaliser)", "vlib/viewspec.py (documented index maps)",
                    "vlib/poly.py + vlib/irval.py (polynomial normal forms, IR subset reader)", "two's-complement overflow ignored (nsw assumed, as the library does)"]
